@@ -951,6 +951,9 @@ func (e *Exec) trCall(x *SCall, env *SpecEnv) TV {
 			// pointer passed where interface expected etc.
 			if want == SCont && args[i].T.Sort == SInt {
 				args[i] = TV{MkCont(IntLit(int64(e.kindCode(args[i].Ty))), args[i].T), pt}
+			} else if args[i].T.Sort == SBV64 && want == SInt {
+				// a word (uint64 in a word-mode function) passed to an int parameter of a spec function: its value as a number
+				args[i] = TV{e.toSort(args[i].T, SInt), pt}
 			} else {
 				e.specFail("argument %d of %s has sort %s, want %s", i, x.Fun, args[i].T.Sort, want)
 			}
